@@ -589,7 +589,7 @@ let suite_dumpcheck (line : string) : string =
       let st = { l_mem = mem; l_imm = imm; l_ver = version; l_store = !store; l_seq = seq;
                  l_snaps = snaps; l_next = n_of_string (between dump "next"); l_panic = false } in
       let lookup nn = match List.assoc_opt nn !store with Some es -> es | None -> [] in
-      let shape = shape_ok version lookup && not !unreadable in
+      let shape = shape_ok version lookup && not !unreadable && lsm_wf_b st in
       let all = all_entries st in
       let views = List.map (fun q -> show_pairs (contents all q)) (seq :: snaps) in
       (* every key read back through the model of the lookup path agrees with the view *)
